@@ -1230,8 +1230,8 @@ class QvmCpu:
             self.trap(TrapCode.NULL_REFERENCE, scope='local', idx=idx)
         if value.type != CellType.REFERENCE:
             self.trap(TrapCode.TYPE_MISMATCH,
-                      expected_type=CellType.REFERENCE,
-                      got_type=value.type)
+                      expected=CellType.REFERENCE,
+                      got=value.type)
         self.push(CellType.REFERENCE, value.value)
 
     def _exec_readg_reference(self, idx):
@@ -1245,8 +1245,8 @@ class QvmCpu:
             self.trap(TrapCode.NULL_REFERENCE, scope='global', idx=idx)
         if value.type != CellType.REFERENCE:
             self.trap(TrapCode.TYPE_MISMATCH,
-                      expected_type=CellType.REFERENCE,
-                      got_type=value.type)
+                      expected=CellType.REFERENCE,
+                      got=value.type)
         self.push(CellType.REFERENCE, value.value)
 
     def _exec_refidx(self):
@@ -1255,8 +1255,8 @@ class QvmCpu:
 
         if not idx.type.is_integral:
             self.trap(TrapCode.TYPE_MISMATCH,
-                      expected_type='integral',
-                      got_type=idx.type)
+                      expected='integral',
+                      got=idx.type)
 
         idx = idx.value
         ref.index += idx
